@@ -322,7 +322,7 @@ func c02BadSizes(c *ev.Ctx) {
 					case <-time.After(2 * time.Second):
 					}
 					a1 := totalAlloc()
-					out, _ := quiesce.Await(p.HandleDone, 60*time.Second)
+					out, _ := quiesce.Await(p.HandleDone, wd)
 					if out != quiesce.CondMet {
 						// the server is waiting for (or reading) the body of a frame it must refuse
 						p.Flush()
@@ -520,7 +520,7 @@ func c02Client(c *ev.Ctx) {
 		done := make(chan struct{})
 		c.Begin(fmt.Sprintf("C02 client case %d", i))
 		go func() { q, mask, attr, gerr = root.GetAttr(p9.AttrMaskAll); close(done) }()
-		out, dump := quiesce.Await(done, 60*time.Second)
+		out, dump := quiesce.Await(done, wd)
 		c.Case(fmt.Sprintf("cli:%s:%v", class, gerr == nil), true)
 		det := map[string]any{"class": class, "reply": hexCut(reply)}
 		if out != quiesce.CondMet {
